@@ -104,6 +104,10 @@ def run(name, pids, tier="quick"):
         print("patch does not apply:", out)
         return None
     results = {}
+    saved = {}
+    for pid in pids:
+        ef = os.path.join(ROOT, "evidence", pid + ".json")
+        saved[pid] = open(ef).read() if os.path.exists(ef) else None
     try:
         for pid in pids:
             before = set(os.listdir(os.path.join(ROOT, "replays", pid))) if os.path.isdir(os.path.join(ROOT, "replays", pid)) else set()
@@ -133,7 +137,13 @@ def run(name, pids, tier="quick"):
     finally:
         sh("git -C /repo checkout -- .")
         sh("git -C /repo clean -fdq")
-        sh("git checkout -- evidence", cwd=ROOT)
+        for pid, content in saved.items():
+            ef = os.path.join(ROOT, "evidence", pid + ".json")
+            if content is None:
+                if os.path.exists(ef):
+                    os.remove(ef)
+            else:
+                open(ef, "w").write(content)
     meta.setdefault("checked", {}).update(results)
     json.dump(meta, open(os.path.join(d, "meta.json"), "w"), indent=1)
     return results
